@@ -27,6 +27,9 @@ pub enum IdPat {
 #[derive(Clone, Debug, Serialize, Deserialize)]
 pub struct AFilter {
     pub neg: bool,
+    /// DLF only: written as a marker (type 2) filter, which must not influence the selection
+    #[serde(default)]
+    pub marker: bool,
     pub enabled: bool,
     pub ecu: Option<IdPat>,
     pub apid: Option<IdPat>,
@@ -144,7 +147,7 @@ fn gen_afilter(rng: &mut Rng, allow_neg: bool, allow_regex: bool) -> AFilter {
     let ctids = ["CTX1", "CTX2", "JOUR", "DC1", "C", "MAIN"];
     let ctidr = ["CTX.", "^(MAIN|JOUR)", "C.*"];
     let nor: [&str; 0] = [];
-    let mut f = AFilter { neg: allow_neg && rng.chance(1, 3), enabled: !allow_neg || rng.chance(5, 6), ecu: None, apid: None, ctid: None };
+    let mut f = AFilter { neg: allow_neg && rng.chance(1, 3), marker: false, enabled: !allow_neg || rng.chance(5, 6), ecu: None, apid: None, ctid: None };
     match rng.below(6) {
         0 => f.ecu = Some(gen_pat(rng, &ecus, if allow_regex { &ecur } else { &nor[..] })),
         1 | 2 => f.apid = Some(gen_pat(rng, &apids, if allow_regex { &apidr } else { &nor[..] })),
@@ -173,7 +176,7 @@ fn write_dlf(fs: &[AFilter]) -> String {
     let mut s = String::from("<?xml version=\"1.0\" encoding=\"UTF-8\"?>\n<dltfilter>\n");
     for f in fs {
         s.push_str("<filter>");
-        s.push_str(&format!("<type>{}</type><name>f</name><enablefilter>{}</enablefilter>", if f.neg { 1 } else { 0 }, if f.enabled { 1 } else { 0 }));
+        s.push_str(&format!("<type>{}</type><name>f</name><enablefilter>{}</enablefilter>", if f.marker { 2 } else if f.neg { 1 } else { 0 }, if f.enabled { 1 } else { 0 }));
         if let Some(p) = &f.ecu {
             s.push_str(&format!("<enableecuid>1</enableecuid><ecuid>{}</ecuid>", p.text()));
         } else {
@@ -316,6 +319,13 @@ impl Check for C14 {
             let j = k.usize(files.len());
             files[j][0].rx_us = t0;
         }
+        // a file may start with a message of (nearly) maximum size
+        if k.chance(1, 12) {
+            let j = k.usize(files.len());
+            if files[j][0].kind == K_LOG {
+                files[j][0].flags |= F_HUGE;
+            }
+        }
         let total: usize = files.iter().map(|f| f.len()).sum();
         let mut garbage = vec![];
         for _ in 0..k.usize(4) {
@@ -329,7 +339,7 @@ impl Check for C14 {
         let eac = if k.chance(1, 3) { (0..k.urange(1, 3)).map(|_| gen_afilter(&mut fr, false, true)).collect() } else { vec![] };
         let ffile_kind = k.weighted(&[60, 25, 15]) as u8;
         let ffile = match ffile_kind {
-            1 => (0..fr.urange(1, 4)).map(|_| gen_afilter(&mut fr, true, true)).map(|mut f| { if let Some(IdPat::Regex(_)) = f.ecu { f.ecu = Some(IdPat::Lit("ECU0".into())); } f }).collect(),
+            1 => (0..fr.urange(1, 4)).map(|_| { let mut f = gen_afilter(&mut fr, true, true); if let Some(IdPat::Regex(_)) = f.ecu { f.ecu = Some(IdPat::Lit("ECU0".into())); } f.marker = fr.chance(1, 5); f }).collect(),
             2 => (0..fr.urange(1, 3)).map(|_| {
                 let mut f = gen_afilter(&mut fr, false, false);
                 f.ecu = None;
@@ -377,6 +387,9 @@ impl Check for C14 {
         if firsts.len() != c.files.len() {
             ctx.probe("files_with_equal_start_time");
         }
+        if c.files.iter().any(|f| f[0].flags & F_HUGE != 0 && f[0].kind == K_LOG) {
+            ctx.probe("file_starting_with_maximum_size_message");
+        }
         let r = run_inner(c, ctx, &root, firsts.len() == c.files.len() && !ties);
         if std::env::var("VERIF_KEEP").is_err() {
             let _ = std::fs::remove_dir_all(&root);
@@ -420,7 +433,7 @@ impl Check for C14 {
         out
     }
     fn rule() -> &'static str {
-        "one run = 1-3 input files written from one simulated world (<= 160 messages; consecutive chunks of one recording or one file per ECU; marker-free garbage between messages) and one option combination over -b/-e, --lcs, --eac (1-3 literal/regex expressions), -f in dlt-viewer DLF and dlt-convert format (positive/negative/disabled), --sort, -a/-x/-s/none, -o; the real convert() is executed 3-4 times inside shuttle executions with small channel bounds: baseline (-a -o, no selection), baseline listing, the selection run, and the selection run with permuted file arguments; expected selection = window AND lifecycle set AND filter rule with an abstract reference predicate written for the oracle; every selected message exactly once on screen and in the re-read -o file; non-trivial = some but not all messages selected; distinct = hash of the case"
+        "one run = 1-3 input files written from one simulated world (<= 160 messages; consecutive chunks of one recording or one file per ECU; marker-free garbage between messages) and one option combination over -b/-e, --lcs, --eac (1-3 literal/regex expressions), -f in dlt-viewer DLF and dlt-convert format (positive/negative/marker/disabled), --sort, -a/-x/-s/none, -o; the real convert() is executed 3-4 times inside shuttle executions with small channel bounds: baseline (-a -o, no selection), baseline listing, the selection run, and the selection run with permuted file arguments; expected selection = window AND lifecycle set AND filter rule with an abstract reference predicate written for the oracle; every selected message exactly once on screen and in the re-read -o file; non-trivial = some but not all messages selected; distinct = hash of the case"
     }
     fn assumptions() -> Vec<&'static str> {
         vec![
@@ -436,7 +449,7 @@ impl Check for C14 {
         vec!["thread scheduling/channels (shuttle + seam, bounds overridden)", "world model writing the input files", "real file system in a per-run directory"]
     }
     fn required_reach() -> Vec<&'static str> {
-        vec!["try_send_full", "opt_index_window", "opt_lcs", "opt_eac", "opt_filter_file_dlf", "opt_filter_file_convert", "opt_sort", "opt_output_file", "multi_file", "files_with_equal_start_time", "permutation_compared"]
+        vec!["try_send_full", "opt_index_window", "opt_lcs", "opt_eac", "opt_filter_file_dlf", "opt_filter_file_convert", "opt_sort", "opt_output_file", "multi_file", "files_with_equal_start_time", "file_starting_with_maximum_size_message", "filter_file_with_marker_filter", "permutation_compared"]
     }
 }
 
@@ -561,8 +574,11 @@ fn run_inner(c: &Case, ctx: &mut Ctx, root: &std::path::Path, perm_ok: bool) -> 
     if c.ffile_kind != 0 {
         all_filters.extend(c.ffile.iter().cloned());
     }
-    let pos: Vec<&AFilter> = all_filters.iter().filter(|f| f.enabled && !f.neg).collect();
-    let neg: Vec<&AFilter> = all_filters.iter().filter(|f| f.enabled && f.neg).collect();
+    if all_filters.iter().any(|f| f.marker && f.enabled) {
+        ctx.probe("filter_file_with_marker_filter");
+    }
+    let pos: Vec<&AFilter> = all_filters.iter().filter(|f| f.enabled && !f.neg && !f.marker).collect();
+    let neg: Vec<&AFilter> = all_filters.iter().filter(|f| f.enabled && f.neg && !f.marker).collect();
     let lo = c.index_first.unwrap_or(0);
     let hi = c.index_last.unwrap_or(u32::MAX);
     let lcset: BTreeSet<u32> = c.lcs.iter().map(|r| r + 1).collect();
